@@ -20,7 +20,11 @@ def as_literal(p: Union[str, int, float, bool, None]) -> ast.Constant:
     Returns:
         ast.Constant: The ast constant node that represents the value.
     """
-    return ast.Constant(value=_plain_value(p), kind=None)
+    node = ast.Constant(value=_plain_value(p), kind=None)
+    if type(node.value) is not type(p):
+        # (what was captured, for an attribute step that follows: `level.name`)
+        node._captured_object = p  # type: ignore
+    return node
 
 
 def _plain_value(p: Any) -> Any:
@@ -504,9 +508,9 @@ class _rewrite_captured_vars(ast.NodeTransformer):
             isinstance(value, ast.Constant)
             # (a literal written in the lambda itself is not a captured value)
             and not isinstance(node.value, ast.Constant)
-            and hasattr(value.value, node.attr)
+            and hasattr(getattr(value, "_captured_object", value.value), node.attr)
         ):
-            new_value = getattr(value.value, node.attr)
+            new_value = getattr(getattr(value, "_captured_object", value.value), node.attr)
             # When 3.10 is not supported, replace with EnumType
             if isinstance(value.value, Enum.__class__) and isinstance(new_value, Enum):
                 # Sometimes we need to prepend a namespace. We look
@@ -526,7 +530,7 @@ class _rewrite_captured_vars(ast.NodeTransformer):
                     ns_node = copy.copy(node)
 
                 return _mark_ignore_name().visit(ns_node)
-            return ast.Constant(value=_plain_value(new_value))
+            return as_literal(new_value)
 
         # An attribute python does not find on a captured value (not a class or a module, which
         # may stand for something only the back end knows): the value is captured all the
